@@ -5,7 +5,7 @@
    JSON glue modelled here (not in Jose/Jws.v): the decoder's borrowed &str fields deserialise only
    from JSON strings that need no escape sequence. *)
 From Coq Require Import List ZArith NArith Bool.
-From IdV Require Import Lib.Wire Lib.Outcome Lib.Base64 Jose.Header Jose.Policy Jose.Jws Run.C11Run Did.DidParse.
+From IdV Require Import Lib.Wire Lib.Outcome Lib.Base64 Jose.Header Jose.Policy Jose.Jws Run.C11Run Did.DidParse Jose.Jwk Jose.Verifiers.
 Import ListNotations.
 Open Scope Z_scope.
 
@@ -146,6 +146,22 @@ Definition jws_run (input : list Z) : list Z :=
                    :: put_lp (match h_crit h with Some l => l | None => [] end) ++ put_lp (filter (fun c => mem c (h_common h)) [3; 4; 5; 6; 7; 8; 9; 10; 11; 12; 13])
                    ++ (match h_custom h with Some _ => 1 | None => 0 end) :: put_lp (match h_custom h with Some l => l | None => [] end)
           | None => ERR_DECODE end
+      | _ => ERR_DECODE end
+    else
+    if kind =? 10 then
+      (* the shipped verifiers around their primitive: 10 0 which(0 EdDSAJwsVerifier | 1 EcDSAJwsVerifier) alg(0 EdDSA 1 ES256 2 ES256K 3 other) family
+         <crv> <x> <y> <signature> <message> point_ok sig_ok verdict  ->  [0] | [1; error kind] *)
+      match r0 with
+      | which :: alg :: fam :: r1 =>
+          match take_lp r1 with Some (crv, r2) => match take_lp r2 with Some (x, r3) => match take_lp r3 with Some (y, r4) =>
+          match take_lp r4 with Some (sg, r5) => match take_lp r5 with Some (msg, [pok; sok; verdict]) =>
+            let a := if alg =? 0 then AEdDSA else if alg =? 1 then AES256 else if alg =? 2 then AES256K else AOther in
+            let k := {| vk_family := (if fam =? 0 then KEc else if fam =? 1 then KRsa else if fam =? 2 then KOct else KOkp);
+                        vk_crv := bytes_of crv; vk_x := bytes_of x; vk_y := bytes_of y |} in
+            let r := if which =? 0 then eddsa_jws_verify (fun _ => bz pok) (fun _ _ _ => bz verdict) a k (bytes_of sg) (bytes_of msg)
+                     else ecdsa_jws_verify (fun _ _ => bz pok) (fun _ _ => bz sok) (fun _ _ _ _ => bz verdict) a k (bytes_of sg) (bytes_of msg) in
+            match r with None => [0] | Some e => [1; match e with UnsupportedAlg => 1 | UnsupportedKeyType => 2 | UnsupportedKeyParams => 3 | KeyDecodingFailure => 4 | InvalidSignature => 5 end] end
+          | _ => ERR_DECODE end | None => ERR_DECODE end | None => ERR_DECODE end | None => ERR_DECODE end | None => ERR_DECODE end
       | _ => ERR_DECODE end
     else
     if (kind =? 8) || (kind =? 9) then [] else   (* real-key rows (Ed25519 bit flips, ECDSA curve / alg table): property oracle only *)
